@@ -35,6 +35,30 @@ CHECKS = {
         "note": "Real powers uninterpreted with three textbook axioms instantiated at the goal's power terms; np.any / pandas table models assumed; residuals summing to < 1 is part of admissibility.",
         "technique": "VC generation from the AST over symbolic-length record arrays; SMT (z3) with instantiated power axioms",
     },
+    "C09": {
+        "category": "proof",
+        "text": "FlowProperties.__init__ (both branches), FlowPropertiesSimple.__init__ and rescale_pseudopressure are executed symbolically on tables of symbolic length (DataFrame and dict): column validation, p_i-outside rejection, frame (caller's table and arrays untouched), factor > 0, m-scaled strictly increasing at nodes and as an interpolant, m_i == m_scaled_func(p_i), alpha-branch bound 1 <= m_i <= 1 + (dm)^2/(4 m_s m_s+1) with equality 1 at nodes, alpha nodes 1/(c mu), every lookup within [min, max] > 0, rescale endpoints 0/1. 15 SMT/CAS/frame obligations with the interp1d contract instantiated at Skolem segments.",
+        "note": "Assumed contract of scipy interp1d (segment chord / node value / fill values), min/max model, copy models, monotone-sequence schema instance; table preconditions (increasing pressure, positive columns) instantiated at the indices used.",
+        "technique": "VC generation from the AST over symbolic-length tables; SMT (z3 NRA) with explicit instantiation; frame analysis of heap writes",
+    },
+    "C15": {
+        "category": "proof",
+        "text": "pseudopressure_threephase is executed on arrays of symbolic length; the quadrature call is identified through the cumulative_trapezoid model (argument order included): integrand == documented total mobility, increment == (p_k - p_k-1)(lam_k + lam_k-1)/2, increments positive for positive mobility, linear in the mobility factor; from_table hands exactly this column to the wrapper and m_i == 1 at nodes. 6 obligations (CAS/SMT).",
+        "note": "cumulative_trapezoid / interp1d / pandas models assumed; p_i inside the first table interval excluded (1/m infinite at the reference row).",
+        "technique": "VC generation from the AST; CAS identities against the documented formula; SMT lemmas",
+    },
+    "C16": {
+        "category": "proof",
+        "text": "compressibility_combined_func == S(p+1/2) - S(p-1/2) for the documented storage function, zero for constant tables, proportional to porosity, lambda == documented sum, alpha == lambda/c, and from_table's alpha column == lambda/c of linearly continued interpolants of the table columns (so end rows are derivatives too): 6 CAS obligations with PVT / rel-perm functions uninterpreted.",
+        "note": "interp1d model ('extrapolate' = linear continuation); sympy normal forms; docs typo S_g/b_o read as S_g/B_g.",
+        "technique": "VC generation from the AST; CAS identities (sympy) with uninterpreted functions",
+    },
+    "C19": {
+        "category": "proof",
+        "text": "Each Fluid method is executed on a pressure array of symbolic length and its element at a symbolic index is proved equal (CAS, case split at the bubble point) to the stand-alone correlation's own extracted term with the instance attributes in the right positions; build_pvt_gas's grid (10 + 10 j < max, none missing) is an SMT obligation from the arange model and each column is the stand-alone correlation at the Sutton point; Sutton clauses are CAS identities plus a path enumeration over a symbolic fluid-type string. 12 obligations.",
+        "note": "np.arange / comprehension-as-map / np.vectorize / pandas models assumed; z_factor_DAK opaque (C06).",
+        "technique": "VC generation from the AST over symbolic-length arrays; CAS term equality, SMT for the grid and rejection paths",
+    },
 }
 
 NOT_APPLICABLE = {f"C{i:02d}": _PENDING for i in range(1, 21)}
